@@ -274,6 +274,9 @@ class TradingEnv(gymnasium.Env):
         # Instance generator of events to be sent at every interaction.
         self._transmitter._reset(fold, episode_length, self._sampling_span)
         self._events_latent, self._events_nonlatent = self._transmitter._next()
+        # Past timesteps are replayed in chronological order (stable sort).
+        self._events_latent = sorted(self._events_latent + self._events_nonlatent)
+        self._events_nonlatent = list()
         self._process_latent_events()
         self._process_nonlatent_events()
 
